@@ -134,6 +134,11 @@ pub struct Running {
 pub fn start(servers: &Servers, xport: Xport, plan: ClientPlan) -> Running {
     let log: Arc<Mutex<ClientLog>> = Arc::default();
     _ = peers::take_reads();
+    match xport {
+        Xport::Tls => servers.tls.drain(),
+        Xport::Ssh => servers.ssh.drain(),
+        Xport::Local => {}
+    }
     let l2 = log.clone();
     match xport {
         Xport::Tls => {
